@@ -61,10 +61,11 @@ CHECKS["C06"] = ("model_checking",
     "carrying that error, then None, also through collect_vec.",
     TRUST + " Hooks: verif_params() accessor (drift reporting only).", "DESIGN.md §4 C06")
 CHECKS["C07"] = ("model_checking",
-    "TLC model-checks lattice designs of bisection, ITP and Brent (MC_Bisect, MC_Itp, MC_Brent - Brent also with ANY interpolated "
+    "TLC model-checks lattice designs of bisection, ITP and Brent (MC_Bisect, MC_ItpP, MC_Brent - Brent also with ANY interpolated "
     "point) against the contract; lattice and seeded runs of the three real solvers with a recording function are judged by TLC against "
     "the contract module Bracket; every abscissa of every real brent() and bisection() run is validated bit for bit against the same "
-    "Brent / Bisect modules over doubles (Trace_Brent, Trace_Bisect)",
+    "Brent / Bisect modules over doubles (Trace_Brent, Trace_Bisect), and every abscissa of every real itp() run must be admitted by the "
+    "abstract design ItpP in its current state (Trace_Itp, refinement)",
     "E1: every bracket/root position/sign/tolerance on the lattices (abscissae inside, sign change kept, iteration/evaluation bounds, "
     "result near a root or sign change). E2/E3: every recorded run of the three real solvers (abscissae seen, evaluation count, result) "
     "checked against the contract with root sets written in TLA+. Design-level trace validation reports drift, never a violation. "
